@@ -85,6 +85,19 @@ Section Decomp.
     let ang := nacos (clip1 (dot3 v a / (norm3 v * norm3 a))) * (ofZ 180 / npi) in
     if ltb (ofZ 90) ang then ofZ 180 - ang else ang.
 
+  (* smallest_angle is a numba kernel (error_model "python"): its scalar division raises
+     ZeroDivisionError when one of the two norms is 0 (measured on the compiled function; the
+     generated Gen_decomp.k_ec_smallest_angle has this leaf).  eigh returns unit vectors, so the
+     hand-written model below leaves the case out; `elasticity_components1_chk` puts it back:
+     the pairing loop calls smallest_angle on all nine (d_i, v_j) pairs before anything else
+     can fail, and ZeroDivisionError is the only exception of the whole function. *)
+  Definition angle_raises1 (v a : arr F) : bool := eqb (norm3 v * norm3 a) zero.
+  Definition sccs_raises (Ed Ev : arr F) (i : nat) : bool :=
+    orb (angle_raises1 (col Ed i) (col Ev 0%nat))
+        (orb (angle_raises1 (col Ed i) (col Ev 1%nat)) (angle_raises1 (col Ed i) (col Ev 2%nat))).
+  Definition angle_raises (Ed Ev : arr F) : bool :=
+    orb (sccs_raises Ed Ev 0%nat) (orb (sccs_raises Ed Ev 1%nat) (sccs_raises Ed Ev 2%nat)).
+
   (* inner loop over j = 0,1,2: state (angle, column, signed index as a float) *)
   Definition pair_step (Ed Ev : arr F) (i : nat) (st : F * nat * F) (j : nat) : F * nat * F :=
     let '(angle, jc, w) := st in
@@ -157,4 +170,8 @@ Section Decomp.
     | Ok (_, None) => Err NonFinite
     | Ok (_, Some l) => Ok (K :: G :: aniso :: l)
     end.
+
+  (* the same with the ZeroDivisionError of smallest_angle (see angle_raises1) *)
+  Definition elasticity_components1_chk (M Ed Ev : arr F) : res (list F) :=
+    if angle_raises Ed Ev then Err DivZero else elasticity_components1 M Ed Ev.
 End Decomp.
